@@ -199,4 +199,148 @@ theorem poison_detected_translator_alone (c : CryptoOps) (cfg : PoisonCfg) (kv p
     (by simpa using hfail)
   simpa using this
 
+/-! ## 3. no false alarm
+
+`SeenByDetector c cfg kv d s` (in `Envelope/PoisonLemmas.lean`): `s` is one of the byte strings the
+proxy's column processor can hand to the poison detector while processing `d` –
+(1) the rest of `d` from a position where the container tag `%%%` starts,
+(2) the serialized container built around a non-empty contiguous part of `d` cut out by the legacy
+    bare-AcraStruct scan,
+(3) the serialized container built around a non-empty contiguous part of `o1`, the OUTPUT of the legacy
+    bare-AcraStruct scan, cut out by the legacy bare-AcraBlock scan.
+
+Case (3) cannot be dropped, i.e. the statement "an alarm implies that some part of `d` decrypts under
+a poison key" is FALSE as it stands. Counterexample (checked on the executable model with the Shim
+back end): `d` = a bare AcraStruct of the client whose plaintext is a bare poison AcraBlock. With the
+client's keys the column processor returns alarm count 1 (the legacy AcraStruct scan replaces the
+AcraStruct by its plaintext, the legacy AcraBlock scan then finds the poison record in that OUTPUT);
+with a client that has no keys the count is 0 – no part of `d` itself opens under the poison keys.
+The alarm is still not "false": the poison record was in the value, one encryption layer down. -/
+
+/-- **Every alarm is caused by bytes that decrypt under a poison key.** If the SQL proxies' column
+processor reports an alarm for the column value `d`, then callbacks are configured and one of the byte
+strings the poison detector was handed while processing `d` (see `SeenByDetector`) opens under the
+poison keys: `isPoison` = `RegistryHandler.Process` with the poison key view succeeds. -/
+theorem no_false_alarm (c : CryptoOps) (cfg : PoisonCfg) (kv : KeyView) (d : Bytes)
+    (h : 1 ≤ (proxyOnColumn c cfg kv d).2) :
+    cfg.hasCallbacks = true ∧ ∃ s, SeenByDetector c cfg kv d s ∧ isPoison c cfg.pk s = true :=
+  proxyOnColumn_alarm c cfg kv d h
+
+/-- AcraTranslator: an alarm means that the client got an error, callbacks are configured and the rest
+of the data from some position where `%%%` starts opens under the poison keys. -/
+theorem no_false_alarm_translator (c : CryptoOps) (cfg : PoisonCfg) (kv : KeyView) (k : Kind) (d : Bytes)
+    (h : 1 ≤ (translatorDecrypt c cfg kv k d).2) :
+    cfg.hasCallbacks = true ∧ (translatorDecrypt c cfg kv k d).1 = .err ∧
+    ∃ i, i < d.length ∧ startsWith containerTag (d.drop i) = true ∧ isPoison c cfg.pk (d.drop i) = true :=
+  translator_alarm c cfg kv k d h
+
+/-- **… and what opens under a poison key is a genuine envelope sealed under that key** (ideal
+authenticity of the seal, `SealLaws c`; this is C03's `reveal_genuine` for the poison key view:
+`reveal c cfg.pk s = .ok m` is exactly its hypothesis). The internal envelope of the reported bytes is
+an AcraBlock whose wrapped data key is a data key sealed under one of the poison symmetric keys and
+whose data part is `m` sealed under that data key – or an AcraStruct whose wrapped key unwraps
+under one of the poison private keys and whose body is `m` sealed under the unwrapped key. Nobody
+without a poison key can make such bytes: ordinary data cannot raise the alarm. -/
+theorem alarm_genuine (c : CryptoOps) (hs : SealLaws c) (cfg : PoisonCfg) (kv : KeyView) (d : Bytes)
+    (h : 1 ≤ (proxyOnColumn c cfg kv d).2) :
+    ∃ s, SeenByDetector c cfg kv d s ∧ ∃ internal id m, deserialize s = .ok (internal, id) ∧ reveal c cfg.pk s = .ok m ∧
+      ((id = idBlock ∧ ∃ ks, cfg.pk.syms = some ks ∧ ∃ key ∈ ks, ∃ dek n1 n2,
+          n1.length = nonceLen ∧ n2.length = nonceLen ∧
+          c.enc key [] dek n2 = some (blockEncKey internal) ∧ c.enc dek [] m n1 = some (blockEncData internal)) ∨
+       (id = idStruct ∧ ∃ ps, cfg.pk.privs = some ps ∧ ∃ priv ∈ ps, ∃ symKey n2, n2.length = nonceLen ∧ symKey ≠ [] ∧
+          c.unwrap priv ((internal.drop 8).take 45) ((internal.drop 53).take 84) = some symKey ∧
+          c.enc symKey [] m n2 = some (internal.drop 145))) := by
+  obtain ⟨_, s, hseen, hpo⟩ := proxyOnColumn_alarm c cfg kv d h
+  exact ⟨s, hseen, isPoison_genuine c hs cfg.pk s hpo⟩
+
+/-- Contrapositive: **a value no part of which opens under a poison key raises no alarm.** -/
+theorem no_poison_no_alarm (c : CryptoOps) (cfg : PoisonCfg) (kv : KeyView) (d : Bytes)
+    (h : ∀ s, SeenByDetector c cfg kv d s → isPoison c cfg.pk s = false) : (proxyOnColumn c cfg kv d).2 = 0 := by
+  cases hn : (proxyOnColumn c cfg kv d).2 with
+  | zero => rfl
+  | succ n =>
+    obtain ⟨_, s, hseen, hpo⟩ := proxyOnColumn_alarm c cfg kv d (by omega)
+    rw [h s hseen] at hpo
+    cases hpo
+
+/-- **Ordinary data never raises the alarm**: a column value that contains neither `%` nor `"` is not
+handed to any callback – alarm count 0 for every crypto back end, all keys, every configuration
+(no assumption at all). -/
+theorem plain_data_no_alarm (c : CryptoOps) (cfg : PoisonCfg) (kv : KeyView) (d : Bytes) (hl : d.length + 12 < 2^64)
+    (h37 : ∀ x ∈ d, x ≠ 37) (h34 : ∀ x ∈ d, x ≠ 34) : (proxyOnColumn c cfg kv d).2 = 0 :=
+  proxyOnColumn_plain c cfg kv d hl h37 h34
+
+/-- **An ordinary protected value of a client never raises the alarm**: a serialized container
+(`serBytes e k.id`, what `protect` produces) that the reader's keys open to `m` and the poison keys do
+not open, stored between bytes without `%`: the client receives exactly `before ++ m ++ after`, and the
+alarm count is 0 – whether or not callbacks are configured. -/
+theorem client_value_no_alarm (c : CryptoOps) (cfg : PoisonCfg) (kv : KeyView) (k : Kind) (e pre suf m : Bytes)
+    (he : e ≠ []) (hlen : e.length + 12 < 2^63)
+    (hproc : process c kv (serBytes e k.id ++ suf) = .ok m) (hne : m ≠ serBytes e k.id ++ suf)
+    (hnp : isPoison c cfg.pk (serBytes e k.id ++ suf) = false)
+    (hpre : ∀ x ∈ pre, x ≠ 37) (hsuf : ∀ x ∈ suf, x ≠ 37) :
+    proxyOnColumn c cfg kv (pre ++ serBytes e k.id ++ suf) = (.ok (pre ++ m ++ suf) true, 0) :=
+  proxyOnColumn_client_value c cfg kv k e pre suf m he hlen hproc hne hnp hpre hsuf
+
+/-- … and under key commitment (`SealLaws` + `SealCommit`, deliberately no length law) the hypothesis
+"the poison keys do not open it" holds for every AcraBlock-protected value of a client whose
+symmetric key is not one of the poison keys: `protect`, store between text, read back – the client
+gets its plaintext, no alarm. (`RoundTripHyps` are the C01 hypotheses for the reader; for the
+AcraStruct kind the laws of Secure Message say nothing about unwrapping with a foreign private key,
+so there "the poison keys do not open it" stays a hypothesis: `client_value_no_alarm`.) -/
+theorem client_block_no_alarm (c : CryptoOps) (hcm : SealCommit c) (cfg : PoisonCfg) (kvW kvR : KeyView)
+    (m rnd p pre suf : Bytes)
+    (h : RoundTripHyps c .block kvW kvR m rnd p)
+    (hnm : matchKind .block m = false) (hnr : registryMatch m = false)
+    (hp : protect c kvW .block m rnd = .ok p) (hne : m ≠ p ++ suf)
+    (hdisj : ∀ key ks, kvW.sym = some key → cfg.pk.syms = some ks → key ∉ ks)
+    (hpre : ∀ x ∈ pre, x ≠ 37) (hsuf : ∀ x ∈ suf, x ≠ 37) :
+    proxyOnColumn c cfg kvR (pre ++ p ++ suf) = (.ok (pre ++ m ++ suf) true, 0) := by
+  obtain ⟨e, rfl, he, hlen, hproc⟩ := protect_roundtrip_facts c .block kvW kvR m rnd p h hnm hnr hp
+  obtain ⟨hs, key, kpre, kpost, hkid, hW, _, _, hek, hpl⟩ := h
+  have hnp : isPoison c cfg.pk (serBytes e Kind.block.id ++ suf) = false := by
+    cases hpo : isPoison c cfg.pk (serBytes e Kind.block.id ++ suf) with
+    | false => rfl
+    | true =>
+      obtain ⟨m', hm'⟩ := isPoison_eq_true.1 hpo
+      exact absurd hm' (protect_block_not_opened c hs hcm kvW cfg.pk key m rnd _ suf hW hkid hek (by omega) hnm hnr hp
+        (fun ks hks => hdisj key ks hW hks) m')
+  exact proxyOnColumn_client_value c cfg kvR .block e pre suf m he hlen (hproc suf) hne hnp hpre hsuf
+
+/-- **Damaged or foreign records never raise the alarm**: if the poison keys open neither the rest of the
+value at any position where `%%%` starts nor the serialized form of any contiguous part of it, and
+the client's keys do not open the serialized form of any contiguous part as an AcraStruct (so the
+legacy scan replaces nothing), the alarm count is 0. -/
+theorem damaged_no_alarm (c : CryptoOps) (cfg : PoisonCfg) (kv : KeyView) (d : Bytes)
+    (h1 : ∀ i, i < d.length → startsWith containerTag (d.drop i) = true → isPoison c cfg.pk (d.drop i) = false)
+    (h2 : ∀ x id, x <:+: d → x ≠ [] → isPoison c cfg.pk (serBytes x id) = false)
+    (h3 : ∀ x, x <:+: d → x ≠ [] → ∀ m, process c kv (serBytes x idStruct) ≠ .ok m) :
+    (proxyOnColumn c cfg kv d).2 = 0 :=
+  proxyOnColumn_unreadable c cfg kv d h1 h2 h3
+
+/-! ## 5. the poison check comes before anything can replace the container -/
+
+/-- **The model's callback stack is the one the source registers, and the poison detector sees every
+container before a later callback can replace it.** With callbacks configured `proxyCallbacks` is
+"poison detector, decrypt handler" (after the wrapper's own callback) – the order
+`fact_poison_first` reads off `proxyFactory.New` of both SQL proxies – and for ANY list `later` of
+callbacks registered after the poison detector (the decrypt handler, the masking processor, …),
+whatever they answer: a container that opens under the poison keys raises the alarm in the callback
+loop. The poison detector itself never replaces a container (it answers "unchanged" or fails). -/
+theorem poison_checked_before_replace (c : CryptoOps) (cfg : PoisonCfg) (kv : KeyView) (hcb : cfg.hasCallbacks = true) :
+    proxyCallbacks c cfg kv = [poisonCallback c cfg, plainT (decryptCallback c kv)] ∧
+    (["wrapper", "poisonDetector", "decrypt"] = Wiring.pgCallbackOrder ∧
+      ["wrapper", "poisonDetector", "decrypt"] = Wiring.mysqlCallbackOrder) ∧
+    (∀ (later : List CallbackT) (cont : Bytes), isPoison c cfg.pk cont = true →
+      1 ≤ (runCallbacksT cont (plainT (fun _ => Cb.same) :: poisonCallback c cfg :: later)).2) ∧
+    (∀ cont b, (poisonCallback c cfg cont).1 ≠ .replaced b) := by
+  refine ⟨by unfold proxyCallbacks; rw [hcb]; rfl, ⟨by decide, by decide⟩, ?_, ?_⟩
+  · intro later cont hpo
+    exact runCallbacksT_alarm_ge cont [plainT (fun _ => Cb.same)] (poisonCallback c cfg) later
+      (by intro g hg; rw [List.mem_singleton.1 hg]; exact Or.inl rfl)
+      (by rw [poisonCallback_alarm, hcb, hpo]; rfl)
+  · intro cont b
+    rw [poisonCallback_out]
+    split <;> exact fun h => nomatch h
+
 end AcraModel.Props.C15
